@@ -657,9 +657,9 @@ func TestVerifC28(t *testing.T) {
 	one := func(id string, to time.Duration) c28Op { return c28Op{batch: []string{id}, timeout: to} }
 	b := vsched.Pick(1, 2)
 	scs := []c28Scenario{
-		// 3 callers over 2 pooled connections; a1 and c-batch carry a deadline, a second round reuses connections
+		// 3 callers over 2 pooled connections; a1 and the batch carry a deadline (thorough: a second round reuses connections)
 		{name: "3callers/2conns/ask+ask+batch", conns: 2, bound: b, ops: [][]c28Op{
-			{one("a1", time.Second), one("a2", 0)},
+			{one("a1", time.Second)},
 			{one("b1", 0)},
 			{{batch: []string{"c1", "c2"}, timeout: time.Second, cancel: true}},
 		}},
@@ -670,6 +670,11 @@ func TestVerifC28(t *testing.T) {
 		}},
 	}
 	if r.Thorough() {
+		scs = append(scs, c28Scenario{name: "3callers/2conns/ask,ask+ask+batch", conns: 2, bound: 2, ops: [][]c28Op{
+			{one("a1", time.Second), one("a2", 0)},
+			{one("b1", 0)},
+			{{batch: []string{"c1", "c2"}, timeout: time.Second, cancel: true}},
+		}})
 		scs = append(scs, c28Scenario{name: "3callers/2conns/two-rounds", conns: 2, bound: 2, ops: [][]c28Op{
 			{one("a1", time.Second), one("a2", time.Second)},
 			{one("b1", 0), one("b2", time.Second)},
